@@ -2,7 +2,9 @@
 
 Writer/reader agreement rules over the three formats (JsonSerializer tagging, client envelope, persisted tick
 adapter) and the pydantic hooks that feed them.  Decided: key sets, name forms, union/alias inventories, recursion
-of the tagging encoder into hook-injected containers, hook override completeness, exception payload form.
+of the tagging encoder into hook-injected containers, hook override completeness, exception payload form, and (R9) that the
+presence test under which a hook writes a private attribute skips only the value the __init__ chain restores by itself
+(writer guard and reader default evaluated together over a finite sample of the attribute's declared type).
 Not decided: value equality for arbitrary payloads (quantifies over inputs), pydantic's own field round trip,
 classes that are not reachable by an attribute path from their module (`<locals>`).
 """
@@ -36,6 +38,13 @@ EXPLANATION = (
     "R8 writer completeness: every model_dump / model_dump_json call in a function on a writer path (JsonSerializer, envelope writers incl. client send and server stream, field serializers, "
     "serializer hooks, and what they call three deep) and every dump through the tick TypeAdapter anywhere in the repo passes no exclude_unset / exclude_defaults / exclude_none / exclude / include that "
     "can drop a declared field (literal, **dict built nearby, or module constant; constant False/None is fine). "
+    "R9 presence round trip: for every private attribute a model_serializer hook injects under a key, and for every sample value v of the attribute's declared type "
+    "(Any: None, False, True, 0, 1, 0.0, 1.5, '', 'x', [], [0], {}, {'k': 0}; dict / list / str / int / float / bool: the falsy member and truthy ones), the rule evaluates on the AST "
+    "(nothing of /repo runs): whether the injection statement is executed when self.<attr> == v (dominating path facts that depend on self, interpreted on a model object; early return, nested if, "
+    "a local holding the test, the public property are the same thing), the value written when the injected expression is small and pure, and what the __init__ chain puts back into the attribute "
+    "from a dump with the key (the forwarded keyword expression) and without it (parameter default / PrivateAttr default). Obligation: v comes back as v, same type. A hook may therefore omit exactly "
+    "the value the reader restores by itself (`is not None` for result, empty for _data) and nothing else; a truthiness test on an `Any` attribute loses 0 / False / 0.0 / '' / [] / {} in all three formats. "
+    "Guards about anything other than the object are left open (assumed to hold); a guard on the attribute that cannot be evaluated is an analysis error. "
     "R7 exception payload: what the writer records as the message (rendering str(exc) vs constructor args) must be what the reader feeds back (cls(msg) vs cls(*args)). "
     "NOT decided: equality of arbitrary payload values, behaviour of pydantic itself, tuples/sets (not JSON-representable), AddWaiter.requirements (dropped by design)."
 )
@@ -45,7 +54,7 @@ TRUSTED = [
     "pydantic: model_validate(model_dump(mode='json')) restores declared fields",
     "importlib.import_module / getattr semantics",
 ]
-TECHNIQUE = "writer/reader table agreement (keys, name forms, inventories) over the AST of the serializer hooks and validators"
+TECHNIQUE = "writer/reader table agreement (keys, name forms, inventories) over the AST of the serializer hooks and validators; finite evaluation of hook guard + reader default over samples of the declared type"
 
 EV = "workflows.events"
 SER = "workflows.context.serializers"
@@ -380,6 +389,10 @@ def run(chk) -> None:
                            reason="the writer tags nested models but no reader un-tags them: they come back as {'__is_pydantic': …} dicts")
     chk.floor("C18.R1", "attribute injections by hooks", ninj, 2)
 
+    # R9: presence round trip of every hook-injected attribute (writer guard o reader default, finite evaluation)
+    npres = sum(_presence_round_trip(chk, repo, ev, q, h, f"{EV}:{q}", base_init) for q, h in sorted(hooks.items()))
+    chk.floor("C18.R9", "hook-injected private attributes examined for their presence round trip", npres, 2)
+
     # R6: a subclass hook replaces the hooks of its bases
     nover = 0
     for q, h in sorted(hooks.items()):
@@ -404,6 +417,7 @@ def run(chk) -> None:
                     for key, val, stmt in hb.inj:
                         chk.ob("C18.R6", f"{r} replaces {aq}'s hook and still emits `{key}`", h2.delegates or any(k == key for k, _v, _s in h2.inj), m=m2, node=h2.fn, fn=h2.fn, instance=f"override:{c2.name}.{key}",
                                reason=f"`{key}` is dropped from every dump of {c2.name}")
+            _presence_round_trip(chk, repo, m2, c2.name, h2, r, base_init)
 
     # ------------------------------------------------------------------ R3 aliases, unions, raw annotations
     aliases = _annotated_aliases(ev)
@@ -630,6 +644,224 @@ def _calls_one_deep(m, call: ast.Call, target: str) -> bool:
     n = last(call_name(call))
     f = m.functions.get(n) if n else None
     return f is not None and _calls_fn(f, target)
+
+
+# ============================================================================ R9 presence round trip of hook-injected attributes
+
+_ANY_SAMPLES = [None, False, True, 0, 1, 0.0, 1.5, "", "x", [], [0], {}, {"k": 0}]
+_TYPE_SAMPLES = {
+    "Any": _ANY_SAMPLES, "object": _ANY_SAMPLES,
+    "dict": [{}, {"k": 0}, {"k": None, "j": ""}], "list": [[], [0], [None, ""]],
+    "str": ["", "x"], "int": [0, 1], "float": [0.0, 1.5], "bool": [False, True], "None": [None],
+}
+for _a, _b in (("Dict", "dict"), ("Mapping", "dict"), ("MutableMapping", "dict"), ("List", "list"), ("Sequence", "list"), ("MutableSequence", "list")):
+    _TYPE_SAMPLES[_a] = _TYPE_SAMPLES[_b]
+
+
+class _Undefined:
+    def __init__(self, why: str):
+        self.why = why
+
+    def __repr__(self) -> str:
+        return f"<{self.why}>"
+
+
+def _samples(ann: ast.AST | None) -> list:
+    """A finite sample of the JSON-representable values a declared type admits: per scalar / container kind its falsy
+    member and at least one truthy member, None where the type says so."""
+    if ann is None:
+        return list(_ANY_SAMPLES)
+    if isinstance(ann, ast.Constant):
+        if ann.value is None:
+            return [None]
+        if isinstance(ann.value, str):
+            return _samples(ast.parse(ann.value, mode="eval").body)
+    if isinstance(ann, ast.BinOp) and isinstance(ann.op, ast.BitOr):
+        return _samples(ann.left) + _samples(ann.right)
+    head = last(dotted(ann.value if isinstance(ann, ast.Subscript) else ann))
+    if isinstance(ann, ast.Subscript) and head in ("Optional", "Union", "Annotated"):
+        elts = ann.slice.elts if isinstance(ann.slice, ast.Tuple) else [ann.slice]
+        if head == "Annotated":
+            return _samples(elts[0])
+        out = [None] if head == "Optional" else []
+        for x in elts:
+            out += _samples(x)
+        return out
+    if head in _TYPE_SAMPLES:
+        return list(_TYPE_SAMPLES[head])
+    raise AnchorError(f"C18.R9: no value sample for the declared type `{ast.unparse(ann)}` of an injected private attribute")
+
+
+def _same(a, b) -> bool:
+    """Equal value of the same type (0 / False / 0.0 are different results)."""
+    return repr(a) == repr(b)
+
+
+def _private_default(decl: ast.AnnAssign, interp):
+    """What pydantic puts into the private attribute when nothing sets it."""
+    c = decl.value
+    d = kwarg(c, "default", 0)
+    if d is not None and not (isinstance(d, ast.Constant) and d.value is Ellipsis):
+        return lambda: interp.eval(d, {})
+    f = kwarg(c, "default_factory")
+    if f is not None:
+        return lambda: interp.apply(interp.eval(f, {}), [], {})
+    return lambda: _Undefined("no default: reading the attribute fails")
+
+
+def _reader_model(repo, ref: str, key: str, attr: str, decl: ast.AnnAssign, base_init: ast.AST, interp):
+    """(value the attribute has after loading a dump that carries `key`: w, … that lacks `key`, where that comes from); None when the
+    route does not exist (R1 reports that)."""
+    from ..absint import Unsupported
+
+    routes_private = any(isinstance(a, ast.Attribute) and a.attr == "__private_attributes__" for a in ast.walk(base_init))
+    if not routes_private:
+        return None
+    if key == attr:
+        dflt = _private_default(decl, interp)
+        return (lambda w: w), dflt, f"the default of the private attribute `{attr}`"
+    found = repo.find_method(ref, "__init__")
+    if not found:
+        return None
+    init_ref, _im, init = found
+    a = init.args
+    pos = a.posonlyargs + a.args
+    defaults: dict[str, ast.AST | None] = {p.arg: None for p in pos + a.kwonlyargs}
+    for p, d in zip(pos[len(pos) - len(a.defaults):], a.defaults):
+        defaults[p.arg] = d
+    for p, d in zip(a.kwonlyargs, a.kw_defaults):
+        defaults[p.arg] = d
+    fwd = [k.value for c in ast.walk(init) if isinstance(c, ast.Call) and isinstance(c.func, ast.Attribute) and c.func.attr == "__init__" for k in c.keywords if k.arg == attr and _name_in(k.value, key)]
+    if key not in defaults or len(fwd) != 1:
+        return None
+    fx = expand(fwd[0], enclosing_stmt(fwd[0]))
+    owner = init_ref.split(":")[-1]
+
+    def present(w):
+        try:
+            return interp.eval(fx, {key: w})
+        except Unsupported as x:
+            raise AnchorError(f"C18.R9: `{attr}={ast.unparse(fx)[:50]}` in {owner}.__init__ is not evaluable ({x})")
+
+    def absent():
+        if defaults[key] is None:
+            return _Undefined(f"`{key}` is a required argument of {owner}.__init__: loading fails")
+        return present(interp.eval(defaults[key], {}))
+
+    return present, absent, f"the default of parameter `{key}` of {owner}.__init__" + ("" if isinstance(fx, ast.Name) else f", passed on as `{attr}={ast.unparse(fx)[:40]}`")
+
+
+def _presence_round_trip(chk, repo, m, q: str, h: "_Hook", ref: str, base_init: ast.AST) -> int:
+    """For every private attribute a serializer hook injects under a key: evaluate, for each sample value v of the attribute's
+    declared type, (a) whether the injection statement is executed when self.<attr> == v (the dominating path facts that
+    depend on `self`, interpreted on a model object; facts about anything else are left open = assumed to hold), (b) the value
+    written (the injected expression, when it is a small pure expression), (c) what the __init__ chain puts back into the
+    attribute from a dump with / without the key.  Obligation: the result is v again, for every v."""
+    import copy
+
+    from ..absint import Interp, Raised, Record, Unsupported
+    from ..astx import facts_at
+    from ..cfg import CFG
+
+    by_slot: dict[tuple[str, str], list[tuple[ast.AST, ast.AST]]] = {}
+    for key, val, stmt in h.inj:
+        valx = expand(val, stmt)
+        attr = _self_attr_in(valx)
+        if attr is not None:
+            by_slot.setdefault((key, attr), []).append((valx, stmt))
+    if not by_slot:
+        return 0
+    interp = Interp({})
+    methods: dict[str, ast.AST] = {}
+    for r in [ref] + repo.mro_names(ref):
+        if ":" in r and repo._has_cls(r):
+            for f in repo.cls(r)[1].body:
+                if isinstance(f, FuncNode):
+                    methods.setdefault(f.name, f)
+    interp.classes[q.rsplit(".", 1)[-1]] = methods
+    cfg = CFG(h.fn)
+    done = 0
+    for (key, attr), sites in sorted(by_slot.items()):
+        done += 1  # examined; when the route back does not exist at all R1 reports it and there is nothing to evaluate here
+        decl, _owner = _private_decl(repo, ref, attr)
+        if decl is None:
+            continue  # R1: not a declared private attribute
+        rd = _reader_model(repo, ref, key, attr, decl, base_init, interp)
+        if rd is None:
+            continue  # R1: the key is not routed back
+        present, absent, absent_src = rd
+        # the guards of each injection site that depend on the object
+        guarded: list[tuple[ast.AST, list[tuple[ast.AST, bool, str]]]] = []
+        for valx, stmt in sites:
+            nodes = cfg.nodes_of(stmt)
+            if not nodes:
+                raise AnchorError(f"C18.R9: injection `{ast.unparse(stmt)[:50]}` of {q}.{h.fn.name} has no CFG node")
+            facts = []
+            for txt, pol in sorted(facts_at(cfg, nodes[0])):
+                try:
+                    fe = ast.parse(txt, mode="eval").body
+                except SyntaxError:
+                    continue
+                if any(isinstance(n, ast.Name) and n.id == "self" for n in ast.walk(fe)):
+                    facts.append((fe, pol, ("" if pol else "not ") + txt))
+            guarded.append((valx, facts))
+
+        def write(v):
+            """('written', w) | ('omitted', failing guard) | ('raises', what)"""
+            failing = ""
+            for valx, facts in guarded:
+                rec = Record(q.rsplit(".", 1)[-1], **{attr: copy.deepcopy(v)})
+                runs = True
+                for fe, pol, shown in facts:
+                    direct = any(isinstance(n, ast.Attribute) and n.attr == attr and dotted(n.value) == "self" for n in ast.walk(fe))
+                    try:
+                        holds = bool(interp.eval(fe, {"self": rec})) == pol
+                    except Raised as x:
+                        return "raises", f"`{shown}` raises {x.name}"
+                    except Unsupported as x:
+                        if direct:
+                            raise AnchorError(f"C18.R9: guard `{shown}` of the `{key}` injection in {q}.{h.fn.name} tests `self.{attr}` in a way this rule cannot evaluate ({x})")
+                        continue  # about other state of the object: left open
+                    if not holds:
+                        runs, failing = False, shown
+                        break
+                if runs:
+                    try:
+                        return "written", interp.eval(valx, {"self": rec})
+                    except Raised as x:
+                        return "raises", f"`{ast.unparse(valx)[:40]}` raises {x.name}"
+                    except Unsupported:
+                        return "written", v  # an encoder call etc.: what it does to the value is R4's question
+            return "omitted", failing
+
+        lost: list[str] = []
+        guards_seen: set[str] = set()
+        samples = []
+        for v in _samples(decl.annotation):
+            if not any(_same(v, s) for s in samples):
+                samples.append(v)
+        for v in samples:
+            how, w = write(v)
+            if how == "raises":
+                lost.append(f"{v!r}: the dump fails, {w}")
+                continue
+            back = present(w) if how == "written" else absent()
+            if not _same(back, v):
+                if how == "omitted":
+                    guards_seen.add(w)
+                    lost.append(f"{v!r} -> {back!r} (key omitted)")
+                else:
+                    lost.append(f"{v!r} -> {back!r}" + ("" if _same(w, v) else f" (written as {w!r})"))
+        cls_short = q.rsplit(".", 1)[-1]
+        why = ""
+        if lost:
+            why = (f"{cls_short}.{h.fn.name} " + (f"writes `{key}` only when " + " / ".join(f"`{g}`" for g in sorted(guards_seen)) + "; " if guards_seen else "")
+                   + f"a dump without the key is read back as {absent()!r} ({absent_src}). self.{attr} -> after dump and load: " + "; ".join(lost)
+                   + f". The presence test may skip only the value the reader restores by itself (compare with that value, e.g. `is not None` / `!= default`), not every falsy value: "
+                   f"`{attr}: {ast.unparse(decl.annotation)}` admits falsy payloads that are legitimate. Every format (JsonSerializer, client envelope, persisted ticks) dumps through this hook")
+        chk.ob("C18.R9", f"every value of `{cls_short}.{attr}: {ast.unparse(decl.annotation)}` ({len(samples)} samples incl. each falsy one) that {h.fn.name} omits from / writes under `{key}` is put back unchanged by the __init__ chain",
+               not lost, m=m, node=sites[0][1], fn=h.fn, instance=f"presence:{cls_short}.{key}", reason=why)
+    return done
 
 
 # ============================================================================ R8 writer completeness
@@ -899,6 +1131,20 @@ TWINS = [
     Twin("benign: keyword dict without drop options", _S, '        if isinstance(value, BaseModel):\n            return {\n                "__is_pydantic": True,\n                "value": value.model_dump(mode="json"),',
          '        if isinstance(value, BaseModel):\n            opts = {"mode": "json", "exclude_none": False}\n            return {\n                "__is_pydantic": True,\n                "value": value.model_dump(**opts),', None),
     Twin("benign: exclude=None on the tick adapter", _P, 'tick_data = WorkflowTickAdapter.dump_python(tick, mode="json")', 'tick_data = WorkflowTickAdapter.dump_python(tick, mode="json", exclude=None)', None),
+    # R9 presence round trip
+    Twin("result written only when truthy (seeded shape): 0 / False / '' / [] / {} come back as None", _E, "        if self._result is not None:\n", "        if self._result:\n", "C18.R9"),
+    Twin("truthiness test as an early return", _E, "        if self._result is not None:\n            data[\"result\"] = self._result\n        return data",
+         "        if not self._result:\n            return data\n        data[\"result\"] = self._result\n        return data", "C18.R9"),
+    Twin("truthiness test through a local and the public property", _E, "        if self._result is not None:\n", "        has_result = bool(self.result)\n        if has_result:\n", "C18.R9"),
+    Twin("falsy result replaced by None in the written value", _E, "            data[\"result\"] = self._result\n", "            data[\"result\"] = self._result or None\n", "C18.R9"),
+    Twin("reader side: falsy result replaced by None on load", _E, "super().__init__(_result=result, **kwargs)", "super().__init__(_result=result or None, **kwargs)", "C18.R9"),
+    Twin("dynamic fields written only when there are several (off by one)", _E, "        if self._data:\n            data[\"_data\"] = self._data", "        if len(self._data) > 1:\n            data[\"_data\"] = self._data", "C18.R9"),
+    Twin("benign: None test as an early return", _E, "        if self._result is not None:\n            data[\"result\"] = self._result\n        return data",
+         "        if self._result is None:\n            return data\n        data[\"result\"] = self._result\n        return data", None),
+    Twin("benign: negated `is None` through a local", _E, "        if self._result is not None:\n", "        missing = self._result is None\n        if not missing:\n", None),
+    Twin("benign: None test through the public property", _E, "        if self._result is not None:\n", "        if self.result is not None:\n", None),
+    Twin("benign: empty dict compared explicitly (the parent hook's harmless truthiness test)", _E, "        if self._data:\n            data[\"_data\"] = self._data", "        if self._data != {}:\n            data[\"_data\"] = self._data", None),
+    Twin("benign: result always written, None included", _E, "        if self._result is not None:\n            data[\"result\"] = self._result\n", "        data[\"result\"] = self._result\n", None),
     # R7 (fires on the unchanged tree; twins only check that refactors do not change the verdict)
     Twin("benign: message local renamed", _E, '    exc_message = data["exception_message"]\n    try:\n        exc_cls = import_module_from_qualified_name(data["exception_type"])\n        return exc_cls(exc_message)\n    except (ImportError, AttributeError, ValueError):\n        return Exception(exc_message)',
          '    msg = data["exception_message"]\n    try:\n        exc_cls = import_module_from_qualified_name(data["exception_type"])\n        return exc_cls(msg)\n    except (ImportError, AttributeError, ValueError):\n        return Exception(msg)', None),
